@@ -230,6 +230,10 @@ class GeckoSnapshot:
         with open(file) as f:
             for line in f:
                 if "Snapshot" in line:
+                    if snapshot is not None:
+                        # Two snapshots with nothing but their own lines in
+                        # between, keep the one that just ended
+                        snapshots.append(snapshot)
                     snapshot = GeckoSnapshot()
                 if snapshot:
                     if "INFO" in line:
